@@ -86,6 +86,8 @@ type built struct {
 	worker  string
 	worker2 string // same sources built by a second toolchain (thorough tier), "" if none
 	goVer2  string
+	hotFile string
+	nhot    int
 	rep     *InstrumentReport
 	nsites  int
 	goVer   string
@@ -181,7 +183,17 @@ func prepare(cfg *config) *built {
 			nsites = s.ID + 1
 		}
 	}
-	return &built{scratch: scratch, worker: bin, worker2: bin2, goVer2: ver2, rep: rep, nsites: nsites, goVer: strings.TrimSpace(string(vout))}
+	var hot []int
+	for _, s := range rep.Sites {
+		if s.Hot {
+			hot = append(hot, s.ID)
+		}
+	}
+	hotFile := filepath.Join(scratch, "hot.json")
+	if err := writeJSON(hotFile, hot); err != nil {
+		die2("%v", err)
+	}
+	return &built{scratch: scratch, worker: bin, worker2: bin2, goVer2: ver2, rep: rep, nsites: nsites, nhot: len(hot), hotFile: hotFile, goVer: strings.TrimSpace(string(vout))}
 }
 
 // WorkerReport mirrors the worker's aggregate (only what simctl needs).
@@ -246,7 +258,7 @@ func workerCmd(b *built, outDir string, w int, args ...string) *exec.Cmd {
 		bin = b.worker2
 	}
 	cmd := exec.Command(bin, args...)
-	env := os.Environ()
+	env := append(os.Environ(), "GEOSIM_HOT="+b.hotFile)
 	var e2 []string
 	for _, e := range env {
 		if strings.HasPrefix(e, "GORACE=") || strings.HasPrefix(e, "GOMAXPROCS=") {
@@ -868,6 +880,7 @@ func runCheck(cfg *config) int {
 			"no_preempt_brackets":              b.rep.CritBrackets,
 			"expression_level_yields":          b.rep.ExprWrapping,
 			"atomic_ops_wrapped":               b.rep.AtomicWraps,
+			"hot_sites_after_sync_ops":         b.nhot,
 			"constructs_outside_scheduler":     b.rep.Uncontrolled,
 			"controlled":                       agg.FreeRuns == 0,
 			"uncontrolled_fallback_runs":       agg.FreeRuns,
